@@ -59,7 +59,8 @@ ASSUMPTIONS = {
             "'cannot be read without the key' means the output leaf is not Plain",
             "payloads range over the shape grammar G of DESIGN 5.C09 (Encrypt.v type v); IgnoreTypes, structpb.Struct payloads, struct payloads passed by value, "
             "named string types (json.Number, type T string) are not among the kinds the filter supports: it leaves them alone, also under a class tag; the model carries them as non-string values that must be preserved", "struct payloads passed by value are compared with the model (and snapshot-checked for C10) but are outside no_leak (their own strings cannot be set); []*string, arrays, strings held in interface{} fields / []interface{} elements, a payload behind a pointer to an interface, pointer tags that go through anything but maps are outside G (array, []interface{} and *interface{} payloads are run with the input-side oracles only; a payload that is a slice of slices is inside: the filter leaves the inner slices alone and the model says so); a Taggable map DIRECTLY as a value of an untagged map is swept as an untagged map (modelled; its tags are not honoured); Filter.IgnoreTypes is outside the model: where the rule applies only the input-side oracles are evaluated",
-            "with every operation overridden to none Process returns the event untouched before looking at the payload kind, so a rotation payload is then forwarded (C10's clause wins over C09's)"],
+            "with every operation overridden to none Process returns the event untouched before looking at the payload kind, so a rotation payload is then forwarded (C10's clause wins over C09's)",
+            "a wrapper that answers (nil, nil) or an empty BlobInfo is no failing wrapper (the filter then writes the bare text 'encrypted:'): outside the statements; failing wrappers return every kind of error value (plain, wrapped sentinels, custom type, joined, typed nil, shared) and fail KeyId; a dead context makes the failing wrapper fail every call, the calls so answered are the model's failure oracle"],
     "C10": ["'the original is untouched' is not expressible in the heap-free model: it is tied dynamically on every case - deep snapshot of the input event before / after Process (KMutated), and again after the forwarded event has been rewritten from top to bottom, Formatted included (KAliased: the copy shares nothing with the original) - partial",
             "copystructure (deep copy that zeroes unexported fields) is modelled by Encrypt.copyz, validated by the correspondence",
             "a zero / nil payload with a missing wrapper and an encrypting configuration yields an error, not the same event (the wrapper check comes first)",
@@ -67,6 +68,8 @@ ASSUMPTIONS = {
     "C16": ["AEAD (AES-GCM of go-kms-wrapping), wrapper derivation, HKDF and HMAC-SHA256 are Section functions with the hypotheses dec k (enc k n m) = Some m; determinism is functionality",
             "each encrypt()/hmacSha256() call, each Rotate / rotation payload and the head of Process of an event with per-event wrapper info (wrapper derivation + resolution of its salt / info) is one atomic step: they run under Filter.l",
             "a rotation made from a Taggable's Tags() callback (Rotate or a rotation payload through Process) is the deterministic stand-in for a rotation scheduled between two values of one event: the values of the fields before the Taggable are produced before it, the Taggable's own entries and the later fields after it (schedule AStart; AVal*; ARot; AVal* of Crypto.crun, theorem C16_callback_schedule)",
+            "a rotation payload whose accessors start events on the same filter (another goroutine, bounded wait) is ONE atomic step: every such event is accepted as an execution of the model in the state before OR after the rotation (a plain event value by value), whichever the scheduling gave - never in a state in between",
+            "events whose values carry their own class tags are turned into model events by Run_Crypto.tstep (Tag.v resolves each tag under the override table in force); the filter of a case with such events has a wrapper from the start (the class-level 'a wrapper is required' scan is C09's, Encrypt.v); PointerTags there use the three known classifications (an unknown one ends Process with an error: C09)",
             "a value is attributed among the candidates of ITS case: every wrapper's key, the per-event keys of the wrappers the case uses for every event id, the salts / infos the case uses (and empty, 1..3); a value no candidate reproduces is reported like a value under the wrong triple",
             "an HKDF salt is an HMAC key (zero-padded): nil = empty salt, trailing NUL bytes of a salt are immaterial, and event ids that differ only in trailing NUL bytes derive the same per-event key (NewEventWrapper uses the id as salt) - the model identifies them", "Filter.Rotate(WithSalt(s)) and the exported HmacSalt / HmacInfo fields keep the caller's slice (the unmutated library does; neither C16 nor C19 forbids it): only a write of the LIBRARY into such a slice is reported (CKCallerSlice), and filters configured from one slice are each judged against their own history", "the harness re-implements HKDF, HMAC framing, the per-event key derivation, the BlobInfo wire format and AES-GCM open independently of the library"],
 }
@@ -86,7 +89,7 @@ MANIFEST = {
             "design_ref": "5.C10", "note": _NOTE, "technique": _TECH, "engine": "coq-encrypt"},
     "C16": {"text": "Crypto.v (key state (wrapper, salt, info), Rotate / rotation payload / event operations, key_in_force with per-event derived wrapper and salt/info precedence, framing over Base64.v); theorems "
                     "b64url_roundtrip, decrypt_roundtrip (all byte strings), hmac_value, hmac_deterministic, rotation_takes_effect (all histories), value_atomic / value_atomic_plain / value_atomic_event (all interleavings of rotations, event starts and per-value steps: every value of every event kind is produced under ONE key generation), callback_schedule / callback_event_under_key_at_start (an event rotated part way through: an event with wrapper info stays under the key in force at its start, also when the filter had no salt / info of its own); "
-                    "tie: encrypth -crypto runs histories of Rotate / rotation payloads / events (salt/info on filter and event absent / empty / set, event id present/absent, empty and non-UTF-8 values; salt, info, event id, key id and plaintext over the length alphabet 0, 1, 63, 64, 65, 127, 128, 129, 1100 bytes with shared 64- and 128-byte prefixes), events that rotate the filter from their own Tags() callback (three payload shapes, with and without wrapper info, both rotation routes), "
+                    "tie: encrypth -crypto runs histories of Rotate / rotation payloads / events (salt/info on filter and event absent / empty / set, event id present/absent, empty and non-UTF-8 values; salt, info, event id, key id and plaintext over the length alphabet 0, 1, 63, 64, 65, 127, 128, 129, 1100 bytes with shared 64- and 128-byte prefixes), events that rotate the filter from their own Tags() callback (three payload shapes, with and without wrapper info, both rotation routes), rotation payloads whose accessors start events on the same filter, events under every FilterOperationOverrides table whose values name their own operation in struct tags / PointerTags (with and without wrapper info), Reopen / Type / directly assigned fields / nil and repeated Rotate options between the events, every context kind, "
                     "an independent implementation reports which (key, salt, info) reproduces each output",
             "design_ref": "5.C16", "note": _NOTE, "technique": _TECH, "engine": "coq-encrypt"},
 }
@@ -199,7 +202,7 @@ def run(ctx, prop=None):
         if kind not in rel:
             others += 1
             continue
-        sig = "%s@%s" % (kind, ({0: "step", 1: "concurrent-rotation", 2: "event-fallback-rotation"}.get(cl, "step") if crypto else SHAPES.get(w, str(w))))
+        sig = "%s@%s" % (kind, ({0: "step", 1: "concurrent-rotation", 2: "event-fallback-rotation", 3: "rotation-payload-accessors"}.get(cl, "step") if crypto else SHAPES.get(w, str(w))))
         affected.setdefault(sig, set()).add(cid)
         sz = case_size(cases[cid])
         if sig not in sigs or (sz, cid) < sigs[sig][:2]:
